@@ -116,6 +116,31 @@ def _parse_full_length(term: str):
     return fmt, lo, hi, k
 
 
+def drain_order_problems(finals):
+    """B3 core (shared with C05.G7 and C14.J4): on every path through _check_network the bytes just received are
+    offered to the framer before returning, and the socket is only read when the buffer was offered to the framer first
+    (or is empty) -- otherwise a close or further data overtakes complete PDUs already buffered."""
+    problems = []
+    n_app = 0
+    for s, how in finals:
+        tr = list(s.trail)
+        for i, ev in enumerate(tr):
+            if ev.kind == 'store' and ev.callee == BUF and ev.args[0].startswith('AUG('):
+                n_app += 1
+                if not any(e.kind == 'call:_process_incoming' or e.kind == 'decode' for e in tr[i + 1:]):
+                    problems.append('path appends received bytes (line %d) and returns without trying to frame a PDU' % ev.line)
+            if ev.kind == 'recv' and '.recv' in ev.callee:
+                if any(c.startswith('+') and 'States.STA_13' in c and 'current_state' in c for c in ev.conds):
+                    continue   # Sta13: waiting for the peer's close, whatever arrives is discarded (AA-6)
+                tried = any(e.kind == 'call:_process_incoming' for e in tr[:i])
+                empty = any(c in ('-' + BUF, '+not ' + BUF, '+len(%s) == 0' % BUF, '-len(%s)' % BUF) for c in ev.conds)
+                if not tried and not empty:
+                    problems.append('the socket is read (line %d) on a path where the buffer may hold bytes that were not '
+                                    'offered to the framer first: a close or further data overtakes complete PDUs already '
+                                    'buffered' % ev.line)
+    return problems, n_app
+
+
 def run(repo, rep):
     model = FsmModel(repo)
     pm = ProviderModel(repo, model)
@@ -279,24 +304,7 @@ def run(repo, rep):
               % (off, off + size, hdr, n_decode), '; '.join(sorted(set(problems))))
 
     # ---------------------------------------------------------------- B3
-    problems = []
-    n_app = 0
-    for s, how in finals:
-        tr = list(s.trail)
-        for i, ev in enumerate(tr):
-            if ev.kind == 'store' and ev.callee == BUF and ev.args[0].startswith('AUG('):
-                n_app += 1
-                if not any(e.kind == 'call:_process_incoming' or e.kind == 'decode' for e in tr[i + 1:]):
-                    problems.append('path appends received bytes (line %d) and returns without trying to frame a PDU' % ev.line)
-            if ev.kind == 'recv' and '.recv' in ev.callee:
-                if any(c.startswith('+') and 'States.STA_13' in c and 'current_state' in c for c in ev.conds):
-                    continue   # Sta13: waiting for the peer's close, whatever arrives is discarded (AA-6)
-                tried = any(e.kind == 'call:_process_incoming' for e in tr[:i])
-                empty = any(c in ('-' + BUF, '+not ' + BUF, '+len(%s) == 0' % BUF, '-len(%s)' % BUF) for c in ev.conds)
-                if not tried and not empty:
-                    problems.append('the socket is read (line %d) on a path where the buffer may hold bytes that were not '
-                                    'offered to the framer first: a close or further data overtakes complete PDUs already '
-                                    'buffered' % ev.line)
+    problems, n_app = drain_order_problems(finals)
     if n_app == 0:
         problems.append('no path appends the received bytes to the buffer')
     rep.check(not problems, 'C03.B3', 'dulprovider:DULServiceProvider._check_network:drain-order',
